@@ -299,6 +299,37 @@ def write_replay(prop, f):
     return path
 
 
+def confirm_violations(prop, tier, violations, ctx):
+    """Every execution is supposed to be a deterministic function of its case. Before a failure class is reported, its first
+    cases are replayed in a FRESH process; a class none of whose replayed cases fails again is an artefact of the exploring
+    process (state left behind by earlier cases) and is not reported as a violation: it is printed as UNCONFIRMED and counted in
+    the evidence. Classes are only dropped when the fresh replay cleanly says "no longer violates" (exit 0); anything else
+    (exit 1, harness error, too many classes to confirm) keeps them."""
+    import subprocess
+    by_sig = {}
+    for f in violations:
+        by_sig.setdefault(f['sig'], []).append(f)
+    if not by_sig or len(by_sig) > 8:
+        return violations
+    dropped = set()
+    for sig, fs in by_sig.items():
+        verdicts = []
+        for f in fs[:3]:
+            path = write_replay(prop, f)
+            r = subprocess.run([sys.executable, os.path.join(VERIF, 'vcheck'), prop, '--tier', tier, '--replay', path],
+                               stdout=subprocess.PIPE, stderr=subprocess.STDOUT, text=True)
+            verdicts.append(r.returncode)
+            if r.returncode != 0:
+                break
+        if verdicts and all(v == 0 for v in verdicts):
+            dropped.add(sig)
+            print('UNCONFIRMED: property=%s %d failing case(s) of class %s did not fail again when replayed in a fresh process '
+                  '(first: %s)' % (prop, len(fs), sig, str(fs[0]['why'])[:300]))
+            ctx.count('failures_not_reproduced_in_a_fresh_process', len(fs))
+            ctx.note('failure class %s (%d cases) was not reproduced by a replay in a fresh process and is not reported' % (sig, len(fs)))
+    return [f for f in violations if f['sig'] not in dropped]
+
+
 def main(argv=None):
     import argparse
     ap = argparse.ArgumentParser(prog='vcheck')
@@ -353,6 +384,7 @@ def main(argv=None):
         ctx.extra['_known'] = sum(n for _, n in matched.values())
         for kid, (k, n) in sorted(matched.items()):
             print('KNOWN-FINDING: property=%s %s [%d failing cases attributed, id=%s]' % (prop, k['what'], n, kid))
+        violations = confirm_violations(prop, a.tier, violations, ctx)
         seen_sig = set()
         reported = 0
         for f in violations:
@@ -367,7 +399,7 @@ def main(argv=None):
             print('  why: %s' % str(f['why'])[:1500])
         if violations:
             print('%d violating cases in %d distinct classes' % (len(violations), len(seen_sig)))
-        nviol = ctx.n_failures - sum(ctx.known_counts.values())
+        nviol = ctx.n_failures - sum(ctx.known_counts.values()) - ctx.extra.get('failures_not_reproduced_in_a_fresh_process', 0)
         if len(ctx.outcomes) <= 1 and ctx.evaluations > 1 and not getattr(mod, 'SINGLE_OUTCOME_OK', False):
             raise HarnessError('vacuous run: %d evaluations produced %d distinct outcomes' % (ctx.evaluations, len(ctx.outcomes)))
         path = write_evidence(mod, ctx, nviol)
